@@ -107,3 +107,55 @@ func TestDumpRun(t *testing.T) {
 	}
 	fmt.Printf("hang=%v harness=%q faults=%v hash=%x\n", res.Hang, res.Harness, res.Faults, FullHash(res))
 }
+
+// TestSweepEngine is a development helper: drive N indices of any engine and print a class histogram.
+func TestSweepEngine(t *testing.T) {
+	engName := os.Getenv("SIM_ENGINE")
+	if engName == "" {
+		t.Skip()
+	}
+	job := &Job{Engine: engName, Property: os.Getenv("SIM_PROP"), BaseSeed: uint64(envInt("SIM_BASE", 1)), Tier: os.Getenv("SIM_TIER")}
+	n := envInt("SIM_N", 50)
+	eng := engines[engName]
+	classes := map[string]int{}
+	example := map[string]string{}
+	wr := &WorkerResult{Extra: map[string]int{}}
+	runs := 0
+	start := time.Now()
+	for idx := envInt("SIM_FROM", 0); idx < envInt("SIM_FROM", 0)+n; idx++ {
+		seed := RunSeed(job.BaseSeed, job.Engine, job.Property, idx)
+		sub := 0
+		run := func(spec *RunSpec) *RunResult {
+			r := RunOne(t, spec)
+			runs++
+			sub++
+			if os.Getenv("SIM_DUMP_SUB") == fmt.Sprintf("%d.%d", idx, sub) {
+				fz := cloneSpec(spec)
+				fz.Decisions = r.Decisions
+				rb, _ := json.Marshal(&Replay{Engine: engName, Property: job.Property, Spec: fz, Class: "?"})
+				os.WriteFile("/tmp/dump.json", rb, 0o644)
+			}
+			if r.Harness != "" {
+				fmt.Println("HARNESS", idx, sub, r.Harness)
+				return r
+			}
+			for _, v := range filterProp(eng.eval(r), job.Property, os.Getenv("SIM_ALL") != "") {
+				classes[v.Class]++
+				if _, ok := example[v.Class]; !ok {
+					example[v.Class] = fmt.Sprintf("[idx %d.%d crashes=%v] %s", idx, sub, spec.Crashes, v.Msg)
+				}
+			}
+			return r
+		}
+		eng.drive(job, idx, seed, run, func() bool { return false }, wr)
+	}
+	var ks []string
+	for k := range classes {
+		ks = append(ks, k)
+	}
+	sort.Strings(ks)
+	for _, k := range ks {
+		fmt.Printf("%5d  %s   %s\n", classes[k], k, trunc(example[k], 200))
+	}
+	fmt.Printf("indices=%d runs=%d wall=%v extra=%v\n", n, runs, time.Since(start), wr.Extra)
+}
